@@ -263,8 +263,13 @@ def run(chk, args):
         # ---- pass 0: tables of the working tree, eligibility decided by TLC
         tables = worker_events(WORKER, {"op": "tables", "models": only}, os.path.join(work, "tables"), "tables")
         rejects, out = tlc_pass(chk, tables, "tables")
-        if rejects:
-            raise vlib.Machinery("table events rejected: %s" % rejects[:3])
+        for tid, line, clause, detail in rejects:
+            if clause != "shown-unit-differs-from-declared":
+                raise vlib.Machinery("table events rejected: %s" % rejects[:3])
+            t = tables[line - 1]
+            chk.violation({"clause": clause, "model": t["model"]},
+                          {"scenario": {"models": [t["model"]], "n_sets": 1, "n_sets_2d": 0, "seed": chk.seed},
+                           "clause": clause, "detail": detail[:1500]})
         verdict = {v["model"]: v for v in vlib.parse_printed(out, "ELIGIBLE")}
         if set(verdict) != set(t["model"] for t in tables):
             raise vlib.Machinery("TLC did not judge every table")
